@@ -78,6 +78,10 @@ pub struct BadBlock {
 	pub kind: String,
 	/// bad already at header level (header must not be remembered either)
 	pub header_bad: bool,
+	/// the block is an altered copy of this honest block and shares its hash (a header's hash covers
+	/// only its proof of work): the node may well know that hash - what it stores under it must stay
+	/// the honest header
+	pub twin_of: Option<usize>,
 }
 
 pub struct Wallet {
@@ -327,6 +331,8 @@ pub struct World {
 	pub stats: BTreeMap<String, u64>,
 	/// optional hand-shaped scenario on top of the generated tree (block ids; meaning is the engine's)
 	pub scenario: Vec<usize>,
+	/// second hand-shaped scenario (same layout)
+	pub scenario2: Vec<usize>,
 }
 
 pub fn header_time_plus(h: &BlockHeader, secs: i64) -> chrono::DateTime<chrono::Utc> {
@@ -375,6 +381,7 @@ impl World {
 			nrd_keys: vec![],
 			stats: BTreeMap::new(),
 			scenario: vec![],
+			scenario2: vec![],
 		}
 	}
 
@@ -780,6 +787,41 @@ impl World {
 		let dt = self.draw_dt();
 		let b = self.assemble(parent, &[tx.clone()], dt, None).ok()?;
 		self.add_block(parent, b, 90, vec![tx], format!("spend-{}", age)).ok()
+	}
+
+	/// Extend `parent` with a block spending, in one transaction, two outputs that were created at
+	/// `created_height` and are siblings in the output MMR (both leaves of a pair).
+	pub fn extend_with_pair_spend(&mut self, parent: usize, created_height: u64) -> Option<usize> {
+		let height = self.blocks[parent].height + 1;
+		let ledger = self.blocks[parent].ledger.clone();
+		let pool = World::spendable(&ledger, height);
+		let at: Vec<OutInfo> = pool.into_iter().filter(|o| o.height == created_height).collect();
+		let mut pair: Option<(OutInfo, OutInfo)> = None;
+		for a in &at {
+			if a.leaf % 2 == 0 {
+				if let Some(b) = at.iter().find(|b| b.leaf == a.leaf + 1) {
+					pair = Some((a.clone(), b.clone()));
+					break;
+				}
+			}
+		}
+		let (a, b) = pair?;
+		let fee = libtx::tx_fee(2, 1, 1);
+		let total = a.value + b.value;
+		if total <= fee + 1 {
+			return None;
+		}
+		let (tx, _) = self.wallet.build_tx(
+			&[a, b],
+			&[total - fee],
+			None,
+			KernelFeatures::Plain {
+				fee: FeeFields::new(0, fee).ok()?,
+			},
+		);
+		let dt = self.draw_dt();
+		let blk = self.assemble(parent, &[tx.clone()], dt, None).ok()?;
+		self.add_block(parent, blk, 90, vec![tx], "spend-sibling-pair-of-horizon-block".into()).ok()
 	}
 
 	/// Extend `parent` with an empty (coinbase only) block on the given branch.
